@@ -338,8 +338,10 @@ class Ctx:
         ev = {"property_id": self.pid, "tier": self.tier, "seed": self.seed, "level": level,
               "coverage": cov, "assumptions": (assumptions or []) + self.assumptions,
               "wall_s": round(time.time() - self.t0, 2), "violations": len(self.violations)}
-        os.makedirs(os.path.join(VERIF, "evidence"), exist_ok=True)
-        with open(os.path.join(VERIF, "evidence", self.pid + ".json"), "w") as f:
+        # evidence/ is only written by runs against /repo itself; runs against a scratch tree (VERIF_REPO) go elsewhere
+        evdir = "evidence" if self.repo == "/repo" else os.path.join("out", "evidence-scratch")
+        os.makedirs(os.path.join(VERIF, evdir), exist_ok=True)
+        with open(os.path.join(VERIF, evdir, self.pid + ".json"), "w") as f:
             json.dump(ev, f, indent=1, default=str)
         for h in self.known_hits:
             print("KNOWN-FINDING: property=%s %s [%s]" % (self.pid, h["what"], h["key"]))
